@@ -15,14 +15,14 @@ INT32_EDGES = [0, 1, -1, 127, 128, -128, 255, 256, -256, 32767, 32768, -32768, 6
                0x12345678, -0x12345678]
 
 EXC_SERIAL = ['SerialException', 'SerialTimeoutException', 'PortNotOpenError']
-EXC_ALL = EXC_SERIAL + ['OSError', 'IOError', 'RuntimeError']
+EXC_ALL = EXC_SERIAL + ['OSError', 'IOError', 'RuntimeError', 'TimeoutError', 'BrokenPipeError', 'RecursionError']
 
 # request names for which command()/query() deliberately ignore a dropped link
 IGNORED_NAMES = ('rb', 'r', 'bl')
 
 WS = ['', '', '', ' ', '  ', '\t', '\r', '\n', ' \r\n', '\t ']
 
-CMD_TEXTS = ['SM,100,10,-10', 'SM,1,0,0', 'XM,50,3,4', 'EM,1,1', 'EM,0,0', 'SP,1,100', 'SP,0,0,3', 'TP',
+CMD_TEXTS = ['T3,1,0,0,0,0,0,0,3', 'L3,1,2,3,4,5,6,7,8,9,10,11,12', 'S2,0,4', 'SM,100,10,-10', 'SM,1,0,0', 'XM,50,3,4', 'EM,1,1', 'EM,0,0', 'SP,1,100', 'SP,0,0,3', 'TP',
              'SC,4,16000', 'SC,10,65535', 'CS', 'SR,60000', 'SR,0,1', 'PO,B,3,1', 'PD,B,3,0', 'SL,7,2',
              'SL,255,31', 'T3,1,0,0,0,0,0,0,3', 'HM,1000', 'HM,1000,0,500', 'CU,50,0', 'CU,1,1',
              'LM,100,5,0,200,-5,0', 'O,1,2', 'O,0', 'C,1,2,3,4', 'N', 'S', 'S,2,3', 'ND', 'NI', 'ES',
@@ -63,6 +63,19 @@ def wrong_line(rng, name):
     return 'OK' if not 'OK'.startswith(name) else 'ZZ'
 
 
+def near_miss(name):
+    """A well-formed line for another command that shares as much as possible with `name` without
+    beginning with it: same first character, different second character (two-character names), or the
+    name in another letter case / after a blank (one-character names)."""
+    if len(name) >= 2:
+        second = 'Z' if name[1].upper() != 'Z' else 'Y'
+        return name[0] + second + ',1'
+    other = name.lower() if name != name.lower() else name.upper()
+    if other != name:
+        return other + ',1'
+    return '_' + name
+
+
 def pick_int(rng, lo, hi, edges=()):
     r = rng.random()
     cand = [e for e in edges if lo <= e <= hi]
@@ -90,7 +103,8 @@ def _none(rng):
 
 
 def _a_nick(rng):
-    base = rng.choice(['Bob', 'axi 7', 'NextDraw_01', 'x', 'abcdefghijklmnop', 'A', 'Zed9', 'Studio  East', 'a \t b'])
+    base = rng.choice(['Bob', 'axi 7', 'NextDraw_01', 'x', 'abcdefghijklmnop', 'A', 'Zed9', 'Studio  East', 'a \t b',
+                       'Errol', 'Err', 'OK', 'QT'])
     return [decorate(rng, base)], {}
 
 
@@ -273,7 +287,7 @@ def distinct_ram(rng):
 
 def simple_world(rng, fw=(3, 0, 2), style=None, unique=True):
     style = style or rng.choice(['mac', 'linux', 'win'])
-    spec = ebb_spec(PORT_NAMES[style][0], fw=fw, nick=rng.choice(['', 'Bob', 'Axi_1']), style=style)
+    spec = ebb_spec(PORT_NAMES[style][0], fw=fw, nick=rng.choice(['', 'Bob', 'Axi_1', 'Errol', 'OK']), style=style)
     if unique:
         spec['prior'] = {'ram': distinct_ram(rng), 'steps': [rng.randint(-9999, 9999), rng.randint(-9999, 9999)]}
         spec['voltage'] = rng.choice([0, 100, 249, 250, 251, 300, 1023])
@@ -362,7 +376,7 @@ def single_faults(rec, exc_classes=EXC_ALL, reply_kinds=None, names=None):
             yield ('raise_on_%s:%s' % (kind, exc), k), {'io': [{'at': [oid, k], 'kind': 'raise', 'exc': exc}]}
         yield ('unplug@%s' % kind, k), {'io': [{'at': [oid, k], 'kind': 'unplug'}]}
     kinds = reply_kinds or ['drop', 'drop_request', 'err_bang', 'err_named', 'stale_instead', 'stale_front',
-                            'late26', 'd25', 'd1']
+                            'stale_near', 'late26', 'd25', 'd1']
     for r, req in enumerate(rec['requests'], start=1):
         name = req_name(req['text'])
         for kd in kinds:
@@ -388,6 +402,8 @@ def reply_fault(oid, r, kd, name, n_lines=2):
     if kd == 'stale_front':
         w = 'QT,abc' if not 'QT,abc'.startswith(name) else 'OK'
         return {'at': at, 'stale': {'text': w + '\n'}}
+    if kd == 'stale_near':
+        return {'at': at, 'stale': {'text': near_miss(name) + '\n', 'instead': True}}
     if kd == 'late26':
         return {'at': at, 'delay': [26]}
     if kd == 'd25':
